@@ -16,6 +16,8 @@ def split_enum_top(ctx, i, path, variants):
             # same variant in every alternative: expose as one AdtVal whose fields are choices
             from .interp import collapse_choice
             fields = [collapse_choice([(d, x.fields[k]) for d, x in a.alts]) for k in range(len(f0.fields))]
+            if not f0.fields:
+                ctx.st.pc.apply_fact(("or", tuple(tuple(d) for d, _x in a.alts)))
             ctx.args[i] = AdtVal(f0.path, f0.variant, fields, f0.kind, f0.vname)
             return None
     a = ctx.arg_split(i)
@@ -129,6 +131,39 @@ def register(S):
         def done(ip, st, rv):
             return ip.finish_call(st, dest, target, rv)
         if ctx.call_closure(ctx.args[1], [a.fields[0]], done):
+            return None
+        return ctx.ret(ctx.top_ret())
+
+    @S.on("core::option::Option::<T>::filter")
+    def option_filter(ctx):
+        r = split_enum_top(ctx, 0, OPTION, OPT_VARS)
+        if r is not None:
+            return r
+        a = ctx.args[0]
+        if a.variant == 0:
+            return ctx.ret(NONE)
+        dest, target = ctx.dest, ctx.target
+        x = a.fields[0]
+        xref = RefVal(ctx.st.new_heap(x), False)
+
+        def done(ip, st, rv):
+            if isinstance(rv, IntVal) and rv.is_const():
+                return ip.finish_call(st, dest, target, some(x) if rv.lo else NONE)
+            if isinstance(rv, IntVal):
+                outs = []
+                for want, val in ((1, some(x)), (0, NONE)):
+                    s2 = st.copy()
+                    if ip.assume_bool(s2, rv, want):
+                        if want:
+                            val = some(ip.read_loc(s2, xref.loc))
+                        ip.finish_call(s2, dest, target, val)
+                        outs.append(s2)
+                return outs
+            s2 = st.copy()
+            ip.finish_call(st, dest, target, some(x))
+            ip.finish_call(s2, dest, target, NONE)
+            return [st, s2]
+        if ctx.call_closure(ctx.args[1], [xref], done):
             return None
         return ctx.ret(ctx.top_ret())
 
@@ -281,18 +316,8 @@ def register(S):
             okv.vals = frozenset(x for x in okv.vals if okv.lo <= x <= okv.hi)
         okv = okv.fresh()
         if op == "Sub" and b.is_const():
-            na = ip.refine_range("Ge", a, b)
-            nn = ip.refine_range("Lt", a, b)
-            if na is not None and na is not a:
-                ip.replace_vid(s_ok, a.vid, na)
-                if a.bits is not None and na.vals is not None and all(e is not None for e in a.bits):
-                    s_ok.pc.add_vals(a.bits, na.vals)
-            if nn is not None and nn is not a:
-                ip.replace_vid(s_no, a.vid, nn)
-                if a.bits is not None and nn.vals is not None and all(e is not None for e in a.bits):
-                    s_no.pc.add_vals(a.bits, nn.vals)
-            if nn is not None and nn.is_const() and a.bits is not None and all(e is not None for e in a.bits):
-                ip.assume_cmp(s_no, "Eq", a, nn)
+            ip.assume_cmp(s_ok, "Ge", ip.current(s_ok, a), b)
+            ip.assume_cmp(s_no, "Lt", ip.current(s_no, a), b)
         else:
             g = {"op": "checked_" + op, "a": repr(a), "b": repr(b), "deps": a.deps | b.deps}
             s_ok.pc.add_guard(dict(g, outcome="some"))
